@@ -24,7 +24,7 @@ func init() {
 		Header:   "From ZenoV Require Import Lib.Harness Warc.Discard Warc.Retry Warc.WarcHarness.\nOpen Scope Z_scope.\n",
 		CaseType: "wcase",
 		Footer:   "\nDefinition DIFF := Eval vm_compute in wdiffs cases.\nPrint DIFF.\nDefinition MON := Eval vm_compute in wmons cases.\nPrint MON.\n",
-		Rule:     "one case = one process running the real archiver stage with a real WARC-writing client against an in-process origin: a configuration (fetch concurrency, direct or through a local SOCKS5 --proxy (the archiver's second WARC client), WARC pool size, on-disk mode, local dedupe, rotation size, discard list, MaxRetry, sync/async, drain-only) and 8-16 resources (status sequence per attempt incl. dropped connections and truncated bodies, body kind and size, identity/gzip, content-length/chunked, Cloudflare header, twins with identical payload), sent as seeds or as assets of a seed; distinct by input text; non-trivial when at least one accepted response was stored, and the case has a discarded, a retried or a failed exchange",
+		Rule:     "one case = one process running the real archiver stage with a real WARC-writing client against an in-process origin: a configuration (fetch concurrency, direct or through a local SOCKS5 --proxy (the archiver's second WARC client), WARC pool size, on-disk mode, local dedupe, rotation size, discard list, MaxRetry, sync/async, drain-only) and 8-16 resources (status sequence per attempt incl. dropped connections and truncated bodies, body kind and size, identity/gzip, content-length/chunked, Cloudflare challenge header and near misses, pages of CDN-fronted sites: 403/429/503/200/404 with Server: cloudflare and other CDN headers but no challenge header, twins with identical payload, head twins whose payloads differ only in their first KB), sent as seeds or as assets of a seed; distinct by input text; non-trivial when at least one accepted response was stored, and the case has a discarded, a retried or a failed exchange",
 		Gen:      genWarcleg,
 		Exec:     execWarcleg,
 		Shrink:   shrinkWarcleg,
@@ -111,10 +111,33 @@ func genWarcleg(r *Rng, i int, tier string) string {
 			return mkHit(att, "resp", st)
 		}
 		x := r.Intn(100)
-		single = x < 50 || x >= 88 && x < 91 || x >= 93 && x < 97
+		single = x < 38 || x >= 88 && x < 91 || x >= 93 && x < 97
 		switch {
-		case x < 50:
+		case x < 38:
 			hits = append(hits, final(1))
+		case x < 50:
+			// a page of a CDN-fronted site: the statuses and Server / CDN headers discard hooks look
+			// at, WITHOUT the challenge header - the policy keeps it (unless the status is listed);
+			// 429 / 503 are retried, every attempt with its own request id in the head of the page
+			st := wlPick(r, []int{403, 403, 403, 403, 429, 503, 200, 404})
+			hdrs := cdnHdrs(r)
+			cf := ""
+			if r.Chance(15) {
+				cf = []string{"block", "Challenge", "managed"}[r.Intn(3)]
+			}
+			tail := r.Intn(1000000)
+			n := 1
+			if st == 429 || st == 503 {
+				n = 1 + r.Intn(sp.MaxRetry+1)
+			}
+			for a := 1; a <= n; a++ {
+				h := HitSpec{Kind: "resp", Status: st, CF: cf, CType: "text/html; charset=utf-8", Chunked: r.Chance(35), Hdrs: hdrs,
+					Body: cdnBody(fmt.Sprintf("%s#%d", path, a), tail, wlPick(r, []int{0, 500, 1100, 2000}), wlPick(r, []int{600, 3000, 5000}))}
+				hits = append(hits, h)
+			}
+			if (st == 429 || st == 503) && n <= sp.MaxRetry {
+				hits = append(hits, final(n+1))
+			}
 		case x < 62 && len(sp.Discard) > 0:
 			hits = append(hits, mkHit(1, "resp", sp.Discard[r.Intn(len(sp.Discard))]))
 		case x < 70:
@@ -193,6 +216,35 @@ func genWarcleg(r *Rng, i int, tier string) string {
 			}
 		}
 	}
+	// head twins: two URLs whose payloads (above the dedupe threshold) differ ONLY in their first
+	// KB (the request id of an error page) and share a long tail, served with the status / Server
+	// header of a CDN: two different payloads - two response records, never a revisit
+	if r.Chance(60) {
+		var singles []int
+		for k, rs := range sp.Resources {
+			if len(rs.Hits) == 1 && rs.Hits[0].Kind == "resp" && rs.Hits[0].Status != 204 && rs.Hits[0].Status != 304 &&
+				!strings.HasPrefix(rs.Hits[0].Body, "rnd:") && !strings.Contains(rs.Hits[0].Body, litSpec("twin payload ")[1:]) && rs.Hits[0].CF == "" {
+				singles = append(singles, k)
+			}
+		}
+		if len(singles) >= 2 {
+			i := r.Intn(len(singles))
+			a := singles[i]
+			singles = append(singles[:i], singles[i+1:]...)
+			b := singles[r.Intn(len(singles))]
+			st := wlPick(r, []int{403, 403, 403, 404, 200, 451})
+			hdrs := cdnHdrs(r)
+			if r.Chance(60) {
+				hdrs[0] = "Server: cloudflare"
+			}
+			tail, pad, tl := r.Intn(1000000), wlPick(r, []int{0, 300, 700}), wlPick(r, []int{1500, 3000, 70000})
+			for _, k := range []int{a, b} {
+				h := &sp.Resources[k].Hits[0]
+				h.Status, h.Hdrs, h.Gzip, h.CType = st, hdrs, false, "text/html; charset=utf-8"
+				h.Body = cdnBody(fmt.Sprintf("%s#1", sp.Resources[k].Path), tail, pad, tl)
+			}
+		}
+	}
 	// seeds: mostly one URL each; sometimes a seed (not fetched again) with a group of assets
 	for k := 0; k < nres; {
 		if nres-k >= 3 && r.Chance(20) {
@@ -216,6 +268,32 @@ func genWarcleg(r *Rng, i int, tier string) string {
 	in := string(b)
 	wlInputs = append(wlInputs, in)
 	return in
+}
+
+// cdnHdrs: the Server header (first) and some of the other headers CDNs add
+func cdnHdrs(r *Rng) []string {
+	hdrs := []string{"Server: " + []string{"cloudflare", "cloudflare", "cloudflare", "cloudflare", "Cloudflare", "cloudflare-nginx", "AkamaiGHost", "nginx", "CloudFront", "ddos-guard"}[r.Intn(10)]}
+	for _, kv := range []string{"Cf-Ray: 8a1f00000000aaaa-AMS", "Cf-Cache-Status: DYNAMIC", "X-Cdn: Imperva", "Retry-After: 1", "X-Amz-Cf-Id: abc"} {
+		if r.Chance(25) {
+			hdrs = append(hdrs, kv)
+		}
+	}
+	return hdrs
+}
+
+// cdnBody: an error page whose first part (< 1 KB: title, request id, padding) is its own and whose
+// tail is shared by all pages with the same tail number
+func cdnBody(id string, tail, pad, tailLen int) string {
+	title := []string{"403 Forbidden", "Access denied", "Error 1020", "Just a moment", "Attention Required! | Cloudflare"}[tail%5]
+	head := "<!DOCTYPE html><html><head><title>" + title + "</title></head><body><h1>" + title + "</h1><p>Ray ID: " + fmt.Sprintf("%-28s", id) + "</p>"
+	spec := litSpec(head)
+	if pad > 0 {
+		if len(head)+pad > 1000 {
+			pad = 1000 - len(head)
+		}
+		spec += "+" + runSpec(' ', pad)
+	}
+	return spec + "+" + litSpec(fmt.Sprintf("<p>tail %d ", tail)) + "+" + runSpec('d', tailLen) + "+" + litSpec("</p></body></html>")
 }
 
 // runChild runs one case in its own process.  A child that produced no result at all (killed by
@@ -311,7 +389,13 @@ func coqRecs(rs []RecSum, end []RecSum) string {
 		if len(sha) != 40 {
 			sha = ""
 		}
-		out = append(out, fmt.Sprintf("Rec %s %s (hx \"%s\") %s %s", ty, coqZ(int64(r.Status)), sha, coqZ(r.Len), coqBool(r.OK)))
+		var refs []string
+		for _, q := range r.Refs {
+			if len(q) == 40 {
+				refs = append(refs, "hx \""+q+"\"")
+			}
+		}
+		out = append(out, fmt.Sprintf("Rec %s %s (hx \"%s\") %s %s %s", ty, coqZ(int64(r.Status)), sha, coqZ(r.Len), coqBool(r.OK), coqList(refs)))
 	}
 	return coqList(out)
 }
@@ -355,6 +439,13 @@ func execWarcleg(in string) Result {
 			case h.Status == 403 && h.CF == "challenge":
 				tags["hit:cloudflare-challenge"] = true
 				interesting = true
+			case h.Server != "":
+				sv := "other-cdn"
+				if h.Server == "cloudflare" {
+					sv = "cloudflare"
+				}
+				tags[fmt.Sprintf("hit:server-%s:%d", sv, h.Status)] = true
+				tags[fmt.Sprintf("status:%dxx", h.Status/100)] = true
 			default:
 				tags[fmt.Sprintf("status:%dxx", h.Status/100)] = true
 			}
@@ -430,6 +521,22 @@ func execWarcleg(in string) Result {
 	}
 	if res.EmptyMembers > 0 {
 		tags["empty-gzip-member-from-idle-writer"] = true
+	}
+	// head twins: kept single-hit pages sharing the tail marker of cdnBody
+	tails := map[string]int{}
+	mark := litSpec("<p>tail ")[1:]
+	for _, rs := range sp.Resources {
+		if i := strings.Index(rs.Hits[0].Body, "+L"+mark); i >= 0 && len(rs.Hits) == 1 {
+			rest := rs.Hits[0].Body[i+2:]
+			if j := strings.Index(rest, "+"); j > 0 {
+				tails[rest[:j]]++
+			}
+		}
+	}
+	for _, n := range tails {
+		if n > 1 {
+			tags["head-twins"] = true
+		}
 	}
 	tags[fmt.Sprintf("proxy:%v", sp.Proxy)] = true
 	if sp.Proxy && res.ProxyConnects == 0 {
